@@ -35,11 +35,9 @@ class Engine:
                                  "(in the cli share of the runs)"]
         d["simulated"] = d["simulated"] + [
             "Ctrl-C -> KeyboardInterrupt raised out of cmdline's time.sleep "
-            "- or, for a program that waits in Thread.join() instead of "
-            "sleeping, out of that join, with CPython <= 3.12's bpo-45274 "
-            "side effect (the joined thread is marked stopped) modelled; a "
-            "SIGINT handler installed through the signal seam is run "
-            "instead of raising"]
+            "(only there: a program that never sleeps is never interrupted, "
+            "its runs are not C14 runs); a SIGINT handler installed through "
+            "the signal seam is run instead of raising"]
         return d
 
     def assumptions(self, prop):
